@@ -200,5 +200,18 @@ func TestGovcStandInLookup(t *testing.T) {
 			}
 		}
 	}
+	// which keys go into the trie at all: a key is parameterised exactly when a ':' or '*' opens one of its segments
+	// ("/:", "/*") or follows '=' ("=:"); a marker elsewhere in a segment does not decide it either way
+	for key, wantParam := range map[string]bool{
+		"/a": false, "/a/b": false, "/a:b": false, "/a*b": false, "/k=v": false, "/a:b/c*d": false,
+		"/:x": true, "/a/:x": true, "/a/*w": true, "/k=:v": true,
+		"/ns:thing/:id": true, "/files:meta/*rest": true, "/a*b/:x": true, "/k=v/:x": true, "/ns:thing/k=:v": true,
+	} {
+		statics, params := makeRecords([]Record{{Key: key, Value: key}})
+		lookups++
+		if gotParam := len(params) == 1 && len(statics) == 0; gotParam != wantParam {
+			t.Fatalf("GOVC-STANDIN-FAIL makeRecords files the key %q as parameterised=%v (statics %d, parameterised %d), want %v", key, gotParam, len(statics), len(params), wantParam)
+		}
+	}
 	fmt.Printf("GOVC-STANDIN name=denco-lookup sets=%d built=%d lookups=%d\n", sets, built, lookups)
 }
